@@ -177,7 +177,11 @@ func (e *c05Env) fail(clause, kind string, detail map[string]interface{}) {
 	}
 	detail["trace"] = append([]string(nil), e.trace...)
 	detail["cfg"] = e.cfg.String()
-	v := mc.Violation(clause, fmt.Sprintf("C05:%s:%s:%s", kind, e.cfg.Backend, e.lastOp), detail)
+	ctx := e.lastOp
+	if kind == "rdb-offer" || kind == "rdb-offered-unreadable" {
+		ctx = "snapshot" // one signature per back end, whatever operation made the snapshot incomplete
+	}
+	v := mc.Violation(clause, fmt.Sprintf("C05:%s:%s:%s", kind, e.cfg.Backend, ctx), detail)
 	e.viol = &v
 }
 
@@ -935,6 +939,7 @@ func (e *c05Env) opEOF() {
 		// memory writer waiting for space (a reader pins the oldest segment): the caller's
 		// Close ends it; bytes it had not accepted are dropped with it
 		w.h.Close()
+		e.snapStalled = false // a snapshot closed while waiting for space stays incomplete
 		if !e.waitUntil(w.isDone) {
 			e.fail("writer did not end after Close", "writer-hang", nil)
 			return
@@ -945,6 +950,47 @@ func (e *c05Env) opEOF() {
 			}
 		}
 	}
+	e.writerEnded()
+	e.settle()
+}
+
+// opWriterClose: Close() of the live writer by its owner, source still open.
+func (e *c05Env) opWriterClose() {
+	w := e.w
+	if w == nil || e.viol != nil {
+		return
+	}
+	e.events++
+	if e.disk() {
+		done := make(chan struct{})
+		go func() { defer close(done); w.h.Close() }()
+		e.spinUntil(func() bool {
+			select {
+			case <-done:
+				return true
+			default:
+				return false
+			}
+		})
+		e.spinUntil(w.isDone)
+	} else {
+		w.h.Close()
+	}
+	if !e.waitUntil(w.isDone) {
+		e.fail("writer did not end after Close", "writer-hang", nil)
+		return
+	}
+	if aw, ok := w.h.(AofChannelWriter); ok && w.kind == "aof" {
+		if r := aw.Right(); r >= e.aofStart && r <= e.right {
+			e.right = r // a writer that was waiting for space drops what it had not accepted
+		}
+	}
+	if w.kind == "rdb" && e.snap != nil && e.snapStalled {
+		e.snapStalled = false // closed while waiting for space: incomplete
+	}
+	w.mu.Lock()
+	w.err = fmt.Errorf("closed by owner") // not a clean completion (see writerEnded)
+	w.mu.Unlock()
 	e.writerEnded()
 	e.settle()
 }
@@ -1117,6 +1163,9 @@ func (e *c05Env) apply(op string) {
 	case op == "eof":
 		e.lastOp = op
 		e.opEOF()
+	case op == "wcl": // the writer's owner closes it (cancellation) while the source is still open
+		e.lastOp = op
+		e.opWriterClose()
 	case op[0] == 'f':
 		structural = false
 		var n int64
@@ -1233,9 +1282,9 @@ func (e *c05Env) apply(op string) {
 }
 
 // enabled lists the operations that make sense in the current state.
-func (e *c05Env) enabled(tier string) ([]string, map[string]bool) {
+func (e *c05Env) enabled(tier string) ([]string, map[string]string) {
 	var ops []string
-	risky := map[string]bool{}
+	risky := map[string]string{} // op -> shape of the dead-lock it may run into ("rdb" | "poll")
 	if e.runID == "" {
 		return []string{"sidS", "sidN"}, risky
 	}
@@ -1251,18 +1300,19 @@ func (e *c05Env) enabled(tier string) ([]string, map[string]bool) {
 			}
 		}
 		if reg || polling >= 2 {
+			shape := "poll"
+			if reg {
+				shape = "rdb" // the snapshot side of the data set is closed first
+			}
 			for _, op := range []string{"rdbF", "rdbP", "rdbH", "del", "rdbF~", "rdbP~", "rdbH~", "del~"} {
-				risky[op] = true
+				risky[op] = shape
 			}
 		}
 		if polling >= 2 {
 			ops = append(ops, "rdbF~", "del~")
 		}
 	}
-	ops = append(ops, "rdbF", "rdbP")
-	if tier == "thorough" {
-		ops = append(ops, "rdbH")
-	}
+	ops = append(ops, "rdbF", "rdbP", "rdbH")
 	if e.w == nil || e.w.kind == "aof" {
 		ops = append(ops, "aof", "aofD")
 	}
@@ -1270,7 +1320,7 @@ func (e *c05Env) enabled(tier string) ([]string, map[string]bool) {
 		ops = append(ops, "f1", "fa", "fb", "fc", "fd")
 	}
 	if e.w != nil {
-		ops = append(ops, "eof")
+		ops = append(ops, "eof", "wcl")
 	}
 	free := false
 	for i := range e.readers {
@@ -1574,7 +1624,7 @@ type c05Outcome struct {
 	res     mc.Result
 	key     string
 	enabled []string
-	risky   map[string]bool // enabled ops that reset the cache while a snapshot reader/writer is registered or two segment readers poll
+	risky   map[string]string // enabled ops that reset the cache while a snapshot reader/writer is registered ("rdb") or two segment readers poll ("poll")
 	wedged  bool
 	hung    bool
 }
@@ -1693,7 +1743,7 @@ func runC05(t *testing.T, rep *mc.Reporter) {
 	type node struct {
 		ops     []string
 		enabled []string
-		risky   map[string]bool
+		risky   map[string]string
 	}
 	baseDepth := depth
 	for _, cfg := range c05Configs(tier) {
@@ -1737,7 +1787,8 @@ func runC05(t *testing.T, rep *mc.Reporter) {
 			states++
 		}
 		frontier := []node{{nil, root.enabled, root.risky}}
-		wedgedSeen := 0
+		wedgedSeen := map[string]int{}
+		wedgedTotal := 0
 		for d := 1; d <= depth && len(frontier) > 0; d++ {
 			var next []node
 			for _, nd := range frontier {
@@ -1745,13 +1796,13 @@ func runC05(t *testing.T, rep *mc.Reporter) {
 					if budget.Expired() {
 						break
 					}
-					if nd.risky[op] && wedgedSeen >= 2 {
+					if sh := nd.risky[op]; sh != "" && wedgedSeen[sh] >= 2 {
 						// same shape as an already confirmed dead-lock of this configuration:
 						// not executed again (every wedged execution leaks its goroutines)
 						rep.Count("skipped_known_deadlock_shape", 1)
 						continue
 					}
-					if wedgedSeen >= 12 {
+					if wedgedTotal >= 12 {
 						rep.Capped("more than 12 wedged executions in one configuration; search of this configuration stopped")
 						break
 					}
@@ -1761,7 +1812,12 @@ func runC05(t *testing.T, rep *mc.Reporter) {
 						return
 					}
 					if o.wedged {
-						wedgedSeen++
+						wedgedTotal++
+						sh := nd.risky[op]
+						if sh == "" {
+							sh = "unpredicted"
+						}
+						wedgedSeen[sh]++
 					}
 					if o.res.Verdict != "ok" {
 						continue
